@@ -50,6 +50,8 @@ type Plan struct {
 	KnownHeader  bool `json:"known_header,omitempty"` // C06: genuine header recorded ahead of the block, block with another witness
 	// C06: after the main run a block carrying a transaction named by on-chain Conflicts attributes is delivered
 	ConflictAttack bool `json:"conflict_attack,omitempty"`
+	// C06: a header batch whose first header (known index, other content) names the signer of the second one
+	ForgedHeaders bool `json:"forged_headers,omitempty"`
 	// TailSeed seeds the decision stream that answers once the explicit tape is used up (0: every further decision is
 	// the default one - no optional fault, no optional check)
 	TailSeed uint64 `json:"plan_tail_seed,omitempty"`
